@@ -119,6 +119,16 @@ func c07PPP(entry string, n []uint64, f []string) string {
 		}}
 		h.HandleEchoReq(1, data)
 		return c07Ok(c07TBN(tail))
+	case "papbld": // papbld - <user> <password>: PAPHandler.SendAuthReq
+		var out []byte
+		h := &PAPHandler{Send: func(code, id uint8, d []byte) { out = d }}
+		h.SendAuthReq(1, string(data), string(c07Arg(f, 1)))
+		return c07Ok(c07TB(out))
+	case "chapbld": // chapbld - <challenge> <name>: CHAPHandler.SendChallenge
+		var out []byte
+		h := &CHAPHandler{Send: func(code, id uint8, d []byte) { out = d }}
+		h.SendChallenge(1, data, string(c07Arg(f, 1)))
+		return c07Ok(c07TB(out))
 	case "rtopts": // round trip: <data> is parsed, re-serialised and parsed again
 		opts, err := ParseOptions(data)
 		if err != nil {
